@@ -45,6 +45,20 @@ class Verifier(Engine):
                     raise GenerationError(f"{c.qualname}: ghost parameter '{a}' clashes with a local variable")
                 st.env[a] = self._declare_param(a, ty)
         self.initial.env = dict(st.env)
+        # a postcondition that names a parameter the body re-assigns would silently speak about the final value:
+        # it has to say old(p) (entry value) — ghost parameters updated by call models are meant as final values
+        reassigned = {n.id for n in ast.walk(fn) if isinstance(n, ast.Name) and isinstance(n.ctx, ast.Store)} & set(argnames)
+        if reassigned:
+            for name, expr in c.ensures:
+                tree = ast.parse(expr, mode="eval")
+                inside_old = set()
+                for n in ast.walk(tree):
+                    if isinstance(n, ast.Call) and isinstance(n.func, ast.Name) and n.func.id == "old":
+                        inside_old |= {id(x) for x in ast.walk(n)}
+                amb = sorted({n.id for n in ast.walk(tree) if isinstance(n, ast.Name) and n.id in reassigned and id(n) not in inside_old})
+                if amb:
+                    raise GenerationError(f"{c.qualname}: ensures.{name} names the re-assigned parameter(s) {amb} outside old(): "
+                                          "write old(p) for the entry value")
         # requires
         for name, expr in c.requires:
             st.assume(self.spec_bool(expr, st))
